@@ -421,6 +421,7 @@ type Contract struct {
 	Trusted  bool   // contract assumed, body not verified against it (must be listed in evidence)
 	PanicsIf []Clause
 	Inline   bool // never use this contract at call sites (always inline)
+	Modular  bool // always use this contract at call sites
 }
 
 type SpecFunc struct {
@@ -557,6 +558,8 @@ func (cs *ContractSet) ParseContractText(file, text string) error {
 					cur.Trusted = true
 				case "inline":
 					cur.Inline = true
+				case "modular":
+					cur.Modular = true
 				}
 			}
 			if _, dup := cs.Funcs[name]; dup {
